@@ -190,4 +190,20 @@ def equalityVerdict {F : Type} [DecidableEq F] (offset : Nat) (claim : Nat)
   | some rs => allEqual rs
   | none => false
 
+/-! ### order of the statement-id markers in the main transcript -/
+
+/-- kinds whose builder / verifier opens its transcript contribution with a statement-id marker
+(`append_message(b"", id)`) inside the predicate loop -/
+def markerKind (k : Kind) : Bool := k == .commitment || k == .verenc || k == .ved
+
+def predOf : Stmt → Option PredStmt
+  | .pred q => some q
+  | _ => none
+
+/-- statement ids in the order `verify` appends statement-id markers: commitment, verifiable-encryption and
+encrypt-and-decrypt statements in schema order, then (after the loop) the range statements -/
+def verifyMarkers (stmts : List Stmt) : List String :=
+  ((stmts.filterMap predOf).filter fun q => markerKind q.kind).map (·.id)
+    ++ ((stmts.filterMap predOf).filter fun q => q.kind == .range).map (·.id)
+
 end AC.Verify
